@@ -46,10 +46,16 @@ type Step struct {
 // (Src.Wrap: the scripted source is handed to the library inside a standard wrapper — "bufio"
 // (*bufio.Reader, 4096), "bufio16" (*bufio.Reader, 16), "multi" (io.MultiReader), "limited"
 // (io.LimitedReader far above the data), "iotest-onebyte" — a caller may install any io.Reader.)
+// Max > 0 caps every read made after the steps are used up at Max bytes (a source that never
+// fills a large request at once); Cycle makes Data wrap around for ever instead of ending in
+// io.EOF (an endless stream, as the operating system's is). Reads of a cyclic source are logged
+// up to a bound only.
 type Src struct {
 	Wrap  string `json:"wrap,omitempty"`
 	Data  string `json:"d"`
 	Steps []Step `json:"st,omitempty"`
+	Max   int    `json:"max,omitempty"`
+	Cycle bool   `json:"cyc,omitempty"`
 }
 
 // Op is one call the child has to make.
